@@ -698,7 +698,9 @@ pub fn run_main(a: &RunArgs) -> i32 {
     }
   }
 
-  if harness_error.is_some() {
+  // a violation that was reported with its replay stands even if some other run of the batch could
+  // not be judged
+  if harness_error.is_some() && exit != 1 {
     return 2;
   }
   exit
